@@ -71,7 +71,7 @@ func clipLine(l LineString, p Polygonal) Polygon {
 			m = maxAbs(r, m)
 		}
 	}
-	if !(m >= 0x1p-1000 && m < 0.5) {
+	if !(m >= 0x1p-1022 && m < 0.5) {
 		return Polygon{Path(l)}.op(p, polyclip.CLIPLINE)
 	}
 	_, e := math.Frexp(m)
